@@ -534,3 +534,39 @@ Proof.
 Qed.
 Theorem size_packet_correct p : len (encode_packet p) = size_packet p.
 Proof. unfold encode_packet. exact (encode_packet_ord_len (pxattrs p) p (Permutation_refl _)). Qed.
+
+(* ------------------------------------------------------------------ statements as used by Properties/C20.v *)
+Theorem stat_roundtrip_proof s :
+  wf_stat s -> decode_stat (encode_stat s) = Some s /\ decode_stat_u (encode_stat s) = Some (s, []).
+Proof.
+  intros H. pose proof (stat_roundtrip_u s H) as E. split; [|exact E].
+  unfold decode_stat. rewrite E. reflexivity.
+Qed.
+
+Theorem packet_roundtrip_proof p :
+  wf_packet p -> decode_packet (encode_packet p) = Some p /\ decode_packet_u (encode_packet p) = Some (p, [], []).
+Proof.
+  intros H. pose proof (packet_roundtrip_u p H) as E. split; [|exact E].
+  unfold decode_packet. rewrite E. reflexivity.
+Qed.
+
+Theorem size_correct_proof :
+  (forall s, len (encode_stat s) = size_stat s) /\ (forall p, len (encode_packet p) = size_packet p).
+Proof. split; [exact size_stat_correct|exact size_packet_correct]. Qed.
+
+(* every order in which Go's map iteration may emit the entries decodes to the same value and
+   has the same length *)
+Theorem canonical_any_order_proof :
+  (forall s xs, wf_stat s -> Permutation xs (st_xattrs s) ->
+     decode_stat (encode_stat_ord xs s) = Some s /\ decode_stat_u (encode_stat_ord xs s) = Some (s, []) /\
+     len (encode_stat_ord xs s) = size_stat s) /\
+  (forall p xs, wf_packet p -> Permutation xs (pxattrs p) ->
+     decode_packet (encode_packet_ord xs p) = Some p /\ decode_packet_u (encode_packet_ord xs p) = Some (p, [], []) /\
+     len (encode_packet_ord xs p) = size_packet p).
+Proof.
+  split.
+  - intros s xs H HP. pose proof (stat_roundtrip_any_order s xs H HP) as E.
+    split; [unfold decode_stat; rewrite E; reflexivity|]. split; [exact E|]. apply size_stat_any_order; exact HP.
+  - intros p xs H HP. pose proof (packet_roundtrip_any_order p xs H HP) as E.
+    split; [unfold decode_packet; rewrite E; reflexivity|]. split; [exact E|]. apply encode_packet_ord_len; exact HP.
+Qed.
